@@ -281,7 +281,8 @@ func normalizeHandlerErr(err error) *status.Status {
 	return status.FromContextError(err)
 }
 
-var statusClasses = []string{"plain", "empty-msg", "colon", "percent", "nonascii", "details", "code-oor", "goerr", "ctx-canceled", "ctx-deadline", "ioeof", "wrapped"}
+var statusClasses = []string{"plain", "empty-msg", "colon", "percent", "nonascii", "details", "code-oor", "goerr", "ctx-canceled", "ctx-deadline", "ioeof", "wrapped",
+	"ctx-canceled-wrapped", "ctx-deadline-wrapped"}
 
 func genStatus(r *rand.Rand, class string) hStatus {
 	code := codes.Code(1 + r.Intn(16))
@@ -323,6 +324,15 @@ func genStatus(r *rand.Rand, class string) hStatus {
 		ctx = true
 	case "ctx-deadline":
 		err = context.DeadlineExceeded
+		ctx = true
+	case "ctx-canceled-wrapped":
+		// what a handler gets back from a downstream call made with its own
+		// context (*url.Error, fmt.Errorf("...: %w", ctx.Err())): a standard
+		// server finds the context error inside (status.FromContextError)
+		err = fmt.Errorf("backend lookup failed: %w", context.Canceled)
+		ctx = true
+	case "ctx-deadline-wrapped":
+		err = fmt.Errorf("backend lookup failed: %w", context.DeadlineExceeded)
 		ctx = true
 	case "ioeof":
 		err = io.EOF
